@@ -845,6 +845,19 @@ def safe_to_device(x, device, xp):
         return x
 
 
+def _escape_h5_key(key: Any) -> str:
+    """Escape the characters of a dictionary key that have a meaning in the
+    flattened HDF5 layout: '.' separates nesting levels and '/' separates
+    HDF5 groups."""
+    key = str(key)
+    return key.replace("%", "%25").replace(".", "%2E").replace("/", "%2F")
+
+
+def _unescape_h5_key(key: str) -> str:
+    """Reverse :py:func:`_escape_h5_key`."""
+    return key.replace("%2F", "/").replace("%2E", ".").replace("%25", "%")
+
+
 def recursively_save_to_h5_file(h5_file, path, dictionary):
     """Save a dictionary to an HDF5 file with flattened keys under a given group path."""
     # Ensure the group exists (or open it if already present)
@@ -852,6 +865,7 @@ def recursively_save_to_h5_file(h5_file, path, dictionary):
 
     def _save_flattened(g, prefix, d):
         for key, value in d.items():
+            key = _escape_h5_key(key)
             full_key = f"{prefix}.{key}" if prefix else key
             if isinstance(value, dict):
                 _save_flattened(g, full_key, value)
@@ -885,7 +899,7 @@ def load_from_h5_file(h5_file, path):
     result = {}
 
     for key, dataset in group.items():
-        parts = key.split(".")
+        parts = [_unescape_h5_key(part) for part in key.split(".")]
         d = result
         for part in parts[:-1]:
             d = d.setdefault(part, {})
